@@ -29,8 +29,8 @@ Record world := mkW {
   w_commits : list commit                    (* oldest first *)
 }.
 
-Definition world_init (caps : list ext) (script : list decision) : world :=
-  mkW script (srv_init caps) [] [] [] [].
+Definition world_init (caps caps_tls : list ext) (script : list decision) : world :=
+  mkW script (srv_init caps caps_tls) [] [] [] [].
 
 Definition opt_list {A} (o : option A) : list A := match o with Some a => [a] | None => [] end.
 
@@ -150,17 +150,20 @@ Definition rcpt_params (c : cli) : list param :=
    handed to the model as a record so that the model stays independent of Gen.v *)
 Record expects := mkExp {
   x_greet : N; x_ehlo : N; x_helo : N; x_mail : N; x_rcpt : N; x_data : N; x_eod : N;
-  x_rset : N; x_noop : N; x_quit : N }.
+  x_rset : N; x_noop : N; x_quit : N; x_starttls : N }.
 
-Definition std_expects : expects := mkExp 220 250 250 250 25 354 250 250 250 221.
+Definition std_expects : expects := mkExp 220 250 250 250 25 354 250 250 250 221 220.
 
 (* ---------- types of the mail.Client level ---------- *)
+Inductive tlspol := TlsNone | TlsOpportunistic | TlsMandatory.
+
 Record config := mkCfg {
   cf_helo   : bytes;
   cf_dsn    : bool;      (* requestDSN *)
   cf_ret    : bytes;     (* dsnReturnType *)
   cf_notify : bytes;     (* strings.Join(dsnRcptNotifyType, ",") *)
-  cf_noop   : bool       (* !noNoop *)
+  cf_noop   : bool;      (* !noNoop *)
+  cf_tls    : tlspol     (* tlspolicy *)
 }.
 
 Record fixes := mkFx {
@@ -170,11 +173,14 @@ Record fixes := mkFx {
   fx_rc_rcpt    : bool;  (* failed RSET after failed RCPTs: client.Close() *)
   fx_rc_data    : bool;  (* failed RSET after a failed DATA: client.Close() *)
   fx_temp_unwrap : bool; (* isTempError unwraps once *)
-  fx_regex      : bytes  (* the pattern of enhancedStatusCode *)
+  fx_regex      : bytes; (* the pattern of enhancedStatusCode *)
+  fx_ehlo_replace : bool (* ehlo() assigns the extension map unconditionally after an accepted EHLO (not a
+                            repair: the original code does; false describes a variant that keeps the old map
+                            when the reply has no extension line) *)
 }.
 
-Definition fixes_all : fixes := mkFx true true true true true true re_anchored.
-Definition fixes_none : fixes := mkFx false false false false false false re_anywhere.
+Definition fixes_all : fixes := mkFx true true true true true true re_anchored true.
+Definition fixes_none : fixes := mkFx false false false false false false re_anywhere true.
 
 Record msg := mkMsg {
   m_id    : nat;             (* identity within the batch (used by the renderer only) *)
@@ -268,11 +274,27 @@ Definition do_quit (st : state) : state * res :=
 Definition extension (c : cli) (e : ext) : bool :=
   match c_ext c with Some l => has_ext l e | None => false end.
 
-(* hello(): EHLO, on any error HELO (ext dropped) *)
-Definition do_hello (name : bytes) (st : state) : state * res :=
+(* ehlo(): the extension map is REPLACED by what this reply advertises (also by an empty map) *)
+Definition do_ehlo (replace : bool) (name : bytes) (st : state) : state * res :=
   match do_cmd (x_ehlo X) (CEhlo name) st with
-  | ((c, w), ROk code t) => ((set_cext c (Some (s_ext (w_srv w))), w), ROk code t)
+  | ((c, w), ROk code t) =>
+      let adv := s_ext (w_srv w) in
+      ((set_cext c (if replace || negb (is_nil adv) then Some adv else c_ext c), w), ROk code t)
+  | r => r
+  end.
+
+(* hello(): EHLO, on any error HELO (ext dropped) *)
+Definition do_hello (replace : bool) (name : bytes) (st : state) : state * res :=
+  match do_ehlo replace name st with
+  | (st1, ROk code t) => (st1, ROk code t)
   | ((c, w), RErr _) => do_cmd (x_helo X) (CHelo name) (set_cext c None, w)
+  end.
+
+(* Client.StartTLS: STARTTLS, TLS handshake (oracle: succeeds), fresh textproto.Conn, EHLO again *)
+Definition do_starttls (replace : bool) (name : bytes) (st : state) : state * res :=
+  match do_cmd (x_starttls X) CStartTLS st with
+  | ((c, w), ROk _ _) => do_ehlo replace name (set_dot c false, w)
+  | r => r
   end.
 
 (* ---------- mail.Client ---------- *)
@@ -405,14 +427,30 @@ Definition send_batch (ms : list msg) (st : state) : state * (ret * list mres) :
       (st2, (match count_errors rs with O => RetNil | n => RetJoined n end, rs))
   end.
 
-(* NewClient (greeting) + Hello; TLS policy NoTLS, no authentication *)
+(* Client.tls: STARTTLS according to the policy; false = the dial fails *)
+Definition tls_step (st : state) : state * bool :=
+  let run := match do_starttls (fx_ehlo_replace F) (cf_helo cfg) st with
+             | (st1, ROk _ _) => (st1, true)
+             | (st1, RErr _) => (st1, false)
+             end in
+  match cf_tls cfg with
+  | TlsNone => (st, true)
+  | TlsMandatory => if extension (fst st) ESTARTTLS then run else (st, false)
+  | TlsOpportunistic => if extension (fst st) ESTARTTLS then run else (st, true)
+  end.
+
+(* NewClient (greeting) + Hello + STARTTLS per policy; no authentication *)
 Definition dial (w : world) : world * option cli :=
   let (w1, tag) := deliver w CGreet in
   match read_reply (x_greet X) (match tag with Some t => t | None => None end) (cli_init, w1) with
   | ((c, w2), RErr _) => (snd (close_cli (c, w2)), None)
   | (st, ROk _ _) =>
-      match do_hello (cf_helo cfg) st with
-      | ((c, w3), ROk _ _) => (w3, Some c)
+      match do_hello (fx_ehlo_replace F) (cf_helo cfg) st with
+      | (st3, ROk _ _) =>
+          match tls_step st3 with
+          | ((c, w4), true) => (w4, Some c)
+          | ((c, w4), false) => (w4, None)
+          end
       | ((c, w3), RErr _) => (w3, None)
       end
   end.
@@ -446,6 +484,6 @@ Definition attr_match (p : option nat * nat) : bool :=
   match fst p with Some t => Nat.eqb t (snd p) | None => false end.
 Definition all_attributed (w : world) : bool := forallb attr_match (w_attr w).
 
-Definition run_case (X : expects) (F : fixes) (cfg : config) (caps : list ext) (script : list decision)
+Definition run_case (X : expects) (F : fixes) (cfg : config) (caps caps_tls : list ext) (script : list decision)
            (ms : list msg) (render : msg -> list bytes * option err) : outcome :=
-  dial_and_send X F cfg render ms (world_init caps script).
+  dial_and_send X F cfg render ms (world_init caps caps_tls script).
